@@ -256,6 +256,11 @@ def z_eq(interp, st, a, b):
             return lift(s, REAL).z == lift(lc, REAL).z if REAL in (lc.ty, t) else lift(s, INT).z == lift(lc, INT).z
         return z3.BoolVal(False)
     if isinstance(a, PyRef) or isinstance(b, PyRef):
+        other = b if isinstance(a, PyRef) else a
+        if other is None or isinstance(other, (bool, int, float, str, bytes)):
+            return z3.BoolVal(False)          # a container is never equal (or identical) to a scalar / None
+        if isinstance(a, PyRef) and isinstance(b, PyRef) and a.id == b.id:
+            return z3.BoolVal(True)
         raise Unsupported('eq on concrete-shaped containers')
     if isinstance(a, tuple) and isinstance(b, tuple):
         if len(a) != len(b):
@@ -282,6 +287,8 @@ def compare(interp, st, op, a, b):
         neg = isinstance(op, ast.IsNot)
         if a is None or b is None:
             r = z_eq(interp, st, a, b)
+        elif (isinstance(a, PyRef) and isinstance(b, (bool, int, float, str, bytes))) or (isinstance(b, PyRef) and isinstance(a, (bool, int, float, str, bytes))):
+            r = z3.BoolVal(False)
         elif isinstance(a, SV) and isinstance(b, SV) and isinstance(a.ty, Ref) and a.ty == b.ty:
             r = a.z == b.z
         elif isinstance(a, SV) and isinstance(b, SV) and isinstance(a.ty, sym.Opaque) and a.ty == b.ty and getattr(a.ty, 'identity', False):
@@ -527,6 +534,12 @@ def getattr_(interp, st, v, name):
                 return
             if cls.keyed and name in ('get',):
                 yield st, Bound(v, name)       # dict-like record: methods are bound lazily (models.record_method)
+                return
+            if getattr(cls, 'lenient', False):
+                # an attribute (instance or class level) the sidecar has no model for, e.g. one a change added: arbitrary state
+                u = Unknown(f'{cls.name}.{name}')
+                u.note(interp, st)
+                yield st, u
                 return
             raise Unsupported(f'{cls.name} has no modelled attribute {name!r}')
     if isinstance(v, SV) and isinstance(v.ty, sym.Opaque):
